@@ -732,8 +732,97 @@ static void run_limited(dec_spec *spec, const vbuf *file, alloc_mon *m, limited 
 	L->peak = m->peak_bytes;
 }
 
+// One Stream whose Blocks (built one by one with lzma_block_buffer_encode: sizes in every Block Header) declare
+// different dictionary sizes, decoded by the threaded decoder under a threading limit that is just what the most
+// demanding Block needs in threaded mode. The Blocks are handed over one at a time and each is drained before the
+// next, so a finished worker with ITS decoder sits in the cache when the next Block starts: the cache has to be
+// evicted correctly or the peak exceeds the limit although every Block fits.
+static void c09_eviction_case(uint64_t idx)
+{
+	vrng r; vrng_init(&r, A.seed, 0xC09E, idx, 0);
+	hx_case_begin(idx);
+	static const uint32_t ds[] = { 16u << 20, 8u << 20, 4u << 20, 1u << 20, 256u << 10, 64u << 10 };
+	unsigned nb = 2 + vrng_below(&r, 3);
+	uint32_t dict[4]; unsigned k0 = vrng_below(&r, 3);
+	for (unsigned i = 0; i < nb; ++i) { unsigned k = vrng_chance(&r, 3, 4) ? k0 + i + vrng_below(&r, 2) : vrng_below(&r, 6); if (k > 5) k = 5; dict[i] = ds[k]; }
+	if (vrng_chance(&r, 1, 4)) { uint32_t t = dict[0]; dict[0] = dict[1]; dict[1] = t; }   // small, big, small...
+	vbuf file = {0}, plainv = {0};
+	lzma_stream_flags sf = { .version = 0, .check = LZMA_CHECK_CRC32 };
+	uint8_t hdr[LZMA_STREAM_HEADER_SIZE];
+	if (lzma_stream_header_encode(&sf, hdr) != LZMA_OK) return;
+	vbuf_append(&file, hdr, sizeof(hdr));
+	lzma_index *ix = lzma_index_init(NULL);
+	size_t end_off[4], uncomp[4]; uint64_t limit = 0, single_max = 0;
+	bool ok = ix != NULL;
+	for (unsigned i = 0; i < nb && ok; ++i) {
+		lzma_options_lzma o; lzma_lzma_preset(&o, 0); o.dict_size = dict[i];
+		lzma_filter f[2] = { { LZMA_FILTER_LZMA2, &o }, { LZMA_VLI_UNKNOWN, NULL } };
+		vbuf part = {0}; gen_data(&r, &part, 20000 + vrng_below(&r, 60000), -1, 4096);
+		lzma_block b; memset(&b, 0, sizeof(b)); b.version = 1; b.check = LZMA_CHECK_CRC32; b.filters = f;
+		size_t bound = lzma_block_buffer_bound(part.n); uint8_t *ob = malloc(bound); size_t op = 0;
+		if (lzma_block_buffer_encode(&b, NULL, part.p, part.n, ob, &op, bound) != LZMA_OK) ok = false;
+		else {
+			vbuf_append(&file, ob, op); vbuf_append(&plainv, part.p, part.n);
+			ok = lzma_index_append(ix, NULL, lzma_block_unpadded_size(&b), b.uncompressed_size) == LZMA_OK;
+			end_off[i] = file.n; uncomp[i] = part.n;
+			uint64_t fm = lzma_raw_decoder_memusage(f);
+			uint64_t m = fm + op + part.n + 4096;
+			if (m > limit) limit = m;
+			if (fm > single_max) single_max = fm;
+		}
+		free(ob); vbuf_free(&part);
+	}
+	if (ok) {
+		size_t isz = (size_t)lzma_index_size(ix); uint8_t *ib = malloc(isz); size_t ip = 0;
+		ok = lzma_index_buffer_encode(ix, ib, &ip, isz) == LZMA_OK;
+		if (ok) vbuf_append(&file, ib, ip);
+		free(ib);
+		sf.backward_size = lzma_index_size(ix);
+		uint8_t ft[LZMA_STREAM_HEADER_SIZE];
+		ok = ok && lzma_stream_footer_encode(&sf, ft) == LZMA_OK;
+		if (ok) vbuf_append(&file, ft, sizeof(ft));
+	}
+	lzma_index_end(ix, NULL);
+	if (!ok) { vbuf_free(&file); vbuf_free(&plainv); hx_count("eviction_cases_skipped", 1); return; }
+	limit += vrng_below(&r, 3) * 20000u;
+	unsigned threads = 2 + vrng_below(&r, 3);
+	alloc_mon m; alloc_mon_init(&m);
+	lzma_stream s = LZMA_STREAM_INIT; s.allocator = &m.a;
+	lzma_mt mt = { .flags = 0, .threads = threads, .timeout = 0, .memlimit_threading = limit, .memlimit_stop = UINT64_MAX };
+	char key[160];
+	if (lzma_stream_decoder_mt(&s, &mt) == LZMA_OK) {
+		uint8_t *out = malloc(plainv.n + 1);
+		s.next_out = out; s.avail_out = plainv.n + 1;
+		lzma_ret ret = LZMA_OK; size_t in_pos = 0; uint64_t expect_out = 0;
+		for (unsigned i = 0; i < nb && ret == LZMA_OK; ++i) {
+			s.next_in = file.p + in_pos; s.avail_in = end_off[i] - in_pos; in_pos = end_off[i]; expect_out += uncomp[i];
+			unsigned spins = 0;
+			while (ret == LZMA_OK && (s.avail_in > 0 || s.total_out < expect_out)) { ret = lzma_code(&s, LZMA_RUN); if (++spins > 2000000) ret = LZMA_PROG_ERROR; }
+		}
+		if (ret == LZMA_OK) { s.next_in = file.p + in_pos; s.avail_in = file.n - in_pos; do ret = lzma_code(&s, LZMA_FINISH); while (ret == LZMA_OK); }
+		uint64_t peak = m.peak_bytes;
+		lzma_end(&s);
+		hx_eval();
+		if (ret != LZMA_STREAM_END || s.total_out != plainv.n || memcmp(out, plainv.p, plainv.n) != 0) {
+			snprintf(key, sizeof(key), "limited-run-differs|stream_mt|block-by-block");
+			hx_violation("C09", key, idx, "threaded decoder fed Block by Block ends with %s (%" PRIu64 " of %zu bytes); dictionaries %u,%u,.. threading limit %" PRIu64, lzma_ret_name(ret), (uint64_t)s.total_out, plainv.n, dict[0], dict[1], limit);
+		} else if (peak > limit + ALLOWANCE(threads)) {
+			snprintf(key, sizeof(key), "memlimit-threading-exceeded|stream_mt|cached-decoders");
+			hx_violation("C09", key, idx, "threaded decoder peak %" PRIu64 " > memlimit_threading %" PRIu64 " (by %" PRIu64 ") although the most demanding Block needs %" PRIu64 " in one thread; %u Blocks with dictionaries %u,%u,%u,%u handed over one at a time, threads %u",
+					peak, limit, peak - limit, single_max, nb, dict[0], dict[1], nb > 2 ? dict[2] : 0, nb > 3 ? dict[3] : 0, threads);
+		}
+		if (m.live_blocks) hx_violation("C09", "leak|stream_mt", idx, "%" PRIu64 " blocks allocated after lzma_end", m.live_blocks);
+		hx_max("max_excess_over_threading_limit_eviction", peak > limit ? peak - limit : 0);
+		free(out);
+	} else lzma_end(&s);
+	hx_count("eviction_cases", 1);
+	hx_distinct(vhash(file.p, file.n, VHASH_INIT), true);
+	alloc_mon_destroy(&m); vbuf_free(&file); vbuf_free(&plainv);
+}
+
 static void c09_case(uint64_t idx)
 {
+	if (idx % 20 == 13) { c09_eviction_case(idx); return; }
 	vrng r; vrng_init(&r, A.seed, 0xC09, idx, 0);
 	hx_case_begin(idx);
 	char key[200];
@@ -814,7 +903,7 @@ dec_spec spec; dec_spec_for(&spec, dk, NULL); spec.file_size = file.n;
 			dec_spec sp = spec;
 			sp.memlimit = lim;
 			if (dk == D_STREAM_MT) { sp.memlimit_threading = vrng_chance(&r, 1, 2) ? lim : UINT64_MAX; if (vrng_chance(&r, 1, 3)) { sp.memlimit_threading = lim; sp.memlimit = UINT64_MAX; } }
-			if (li >= first_threading_only && li < last_threading_only) { sp.memlimit_threading = lim; sp.memlimit = UINT64_MAX; hx_count("mt_threading_limit_just_above_single_thread_need", 1); }
+			if (li >= first_threading_only && li < last_threading_only) { sp.memlimit_threading = lim; sp.memlimit = UINT64_MAX; hx_count("mt_limit_just_above_st_need", 1); }
 			alloc_mon m; alloc_mon_init(&m);
 			limited L; run_limited(&sp, &file, &m, &L, true);
 			hx_eval();
